@@ -235,7 +235,7 @@ fn month_insert() {
     vcover!("month_insert.dup", !r);
 }
 
-//@H props=C15,C04 tier=quick kind=complete cap=300 domain="all bitmaps x day 1..=31"
+//@H props=C01,C02,C04,C15 tier=quick kind=complete cap=300 domain="all bitmaps x day 1..=31"
 #[cfg_attr(kani, kani::proof_for_contract(CompactMonth::contains))]
 #[cfg_attr(verif_replay, test)]
 fn month_contains() {
@@ -247,7 +247,7 @@ fn month_contains() {
     vcover!("month_contains.no", !r);
 }
 
-//@H props=C15,C04 tier=quick kind=complete cap=300 domain="all bitmaps"
+//@H props=C02,C04,C15 tier=quick kind=complete cap=300 domain="all bitmaps"
 #[cfg_attr(kani, kani::proof_for_contract(CompactMonth::first))]
 #[cfg_attr(verif_replay, test)]
 fn month_first() {
@@ -264,7 +264,7 @@ fn month_first() {
     vcover!("month_first.none", r.is_none());
 }
 
-//@H props=C15,C04 tier=quick kind=complete cap=300 domain="all bitmaps x day 1..=31"
+//@H props=C02,C04,C15 tier=quick kind=complete cap=300 domain="all bitmaps x day 1..=31"
 #[cfg_attr(kani, kani::proof_for_contract(CompactMonth::first_after))]
 #[cfg_attr(verif_replay, test)]
 fn month_first_after() {
@@ -370,7 +370,7 @@ fn year_insert() {
     vcover!("year_insert.dup", !r);
 }
 
-//@H props=C15,C04 tier=quick kind=complete cap=600 domain="12 symbolic months x (month, day)"
+//@H props=C01,C02,C04,C15 tier=quick kind=complete cap=600 domain="12 symbolic months x (month, day)"
 #[cfg_attr(kani, kani::proof)] // contract of CompactYear::contains in assert form, see module doc
 #[cfg_attr(kani, kani::stub_verified(CompactMonth::contains))]
 #[cfg_attr(kani, kani::unwind(14))]
@@ -383,7 +383,7 @@ fn year_contains() {
     vcover!("year_contains.yes", r);
 }
 
-//@H props=C15,C04 tier=quick kind=complete cap=900 domain="12 symbolic months x query (month, day)"
+//@H props=C02,C04,C15 tier=quick kind=complete cap=900 domain="12 symbolic months x query (month, day)"
 #[cfg_attr(kani, kani::proof)] // contract of CompactYear::first in assert form, see module doc
 #[cfg_attr(kani, kani::stub_verified(CompactMonth::first))]
 #[cfg_attr(kani, kani::unwind(14))]
@@ -405,7 +405,7 @@ fn year_first() {
     vcover!("year_first.none", r.is_none());
 }
 
-//@H props=C15,C04 tier=quick kind=complete cap=900 domain="12 symbolic months x (month, day) x query (month, day)"
+//@H props=C02,C04,C15 tier=quick kind=complete cap=900 domain="12 symbolic months x (month, day) x query (month, day)"
 #[cfg_attr(kani, kani::proof)] // contract of CompactYear::first_after in assert form, see module doc
 #[cfg_attr(kani, kani::stub_verified(CompactMonth::first_after))]
 #[cfg_attr(kani, kani::stub_verified(CompactMonth::first))]
@@ -708,7 +708,7 @@ fn cal_first_after_n<const N: usize>(before_window: bool) {
     vcover!("cal_first_after.after_window", before_window || p.year() > c.first_year + N as i32 - 1);
 }
 
-//@H props=C15,C04 tier=quick kind=bounded cap=1500 bound="1 stored year, argument inside or after the window" domain="all bitmaps of valid dates; argument and query dates within 1 year of the window; window anywhere"
+//@H props=C02,C04,C15 tier=quick kind=bounded cap=1500 bound="1 stored year, argument inside or after the window" domain="all bitmaps of valid dates; argument and query dates within 1 year of the window; window anywhere"
 #[cfg_attr(kani, kani::proof)]
 #[cfg_attr(kani, kani::stub_verified(CompactYear::first_after))]
 #[cfg_attr(kani, kani::stub_verified(CompactYear::first))]
@@ -718,7 +718,7 @@ fn cal_first_after_1() {
     cal_first_after_n::<1>(false)
 }
 
-//@H tier_C04=thorough props=C15,C04 tier=quick kind=bounded cap=1800 bound="3 stored years (the middle one may be empty), argument inside or after the window" domain="all bitmaps of valid dates; argument and query dates within 1 year of the window; window anywhere"
+//@H tier_C04=thorough props=C02,C04,C15 tier=quick kind=bounded cap=1800 bound="3 stored years (the middle one may be empty), argument inside or after the window" domain="all bitmaps of valid dates; argument and query dates within 1 year of the window; window anywhere"
 #[cfg_attr(kani, kani::proof)]
 #[cfg_attr(kani, kani::stub_verified(CompactYear::first_after))]
 #[cfg_attr(kani, kani::stub_verified(CompactYear::first))]
